@@ -16,6 +16,13 @@ Proof. induction a as [|x r IH]; cbn; intros Hnd; [constructor|]. inversion Hnd 
 Lemma NoDup_app_r {A} (a b : list A) : NoDup (a ++ b) -> NoDup b.
 Proof. induction a as [|x r IH]; cbn; intros Hnd; [assumption|]. inversion Hnd; subst. auto. Qed.
 
+Lemma NoDup_app_intro {A} (a b : list A) : NoDup a -> NoDup b -> (forall g, In g a -> In g b -> False) -> NoDup (a ++ b).
+Proof.
+  induction a as [|x r IH]; intros Ha Hb Hd; [assumption|]. inversion Ha as [|? ? Hni Hr]; subst. cbn. constructor.
+  - intros Hin. apply in_app_or in Hin as [|Hin]; [contradiction|]. apply (Hd x); [left; reflexivity|assumption].
+  - apply IH; auto. intros g H1 H2. apply (Hd g); [right; assumption|assumption].
+Qed.
+
 Lemma NoDup_flat_map_other {A B} (f : A -> list B) l1 x l2 g :
   NoDup (flat_map f (l1 ++ x :: l2)) -> In g (f x) -> forall y, In y (l1 ++ l2) -> ~ In g (f y).
 Proof.
